@@ -1,5 +1,5 @@
 (* C12 -- Feed-forward layers compute their documented formulas; Linen and NNX agree. *)
-From Coq Require Import ZArith QArith.
+From Coq Require Import ZArith QArith Permutation.
 From Flaxm Require Import Lib.Harness Model.NdIndex Model.Layers Proofs.Layers Proofs.ConvT Proofs.Conv2 Proofs.NdIndex Proofs.DenseG Model.Dropout Proofs.Dropout Model.Einsum Proofs.Einsum.
 Open Scope Z_scope.
 
@@ -220,6 +220,14 @@ Theorem C12_einsum_bias_follows_kernel_axes : forall sizes rhs out o o',
   bias_pos sizes rhs out o = bias_pos sizes rhs out o'.
 Proof. exact bias_pos_kernel_axes. Qed.
 Print Assumptions C12_einsum_bias_follows_kernel_axes.
+(* writing the result labels in another order only transposes the result: entry o' of the permuted equation is the entry of the
+   original equation at the same coordinates *)
+Theorem C12_einsum_result_order : forall sizes lhs rhs out out' x k o', Permutation out out' -> NoDup out' ->
+  (o' < prod (shape_of sizes out'))%nat ->
+  einsum_entry sizes lhs rhs out' x k o' =
+  einsum_entry sizes lhs rhs out x k (ravel (shape_of sizes out) (coords (asg_of sizes out' o') out)).
+Proof. exact einsum_out_permutation. Qed.
+Print Assumptions C12_einsum_result_order.
 Example C12_einsum_example :
   einsum_layer [(0, 2); (1, 3); (2, 2)]%nat [0; 1]%nat [1; 2]%nat [0; 2]%nat [1; 2; 3; 4; 5; 6] [1; 0; 0; 1; 1; 1] (Some [10; 20]) = [14; 25; 20; 31] /\
   einsum_layer [(0, 2); (1, 3); (2, 2)]%nat [0; 1]%nat [1; 2]%nat [2; 0]%nat [1; 2; 3; 4; 5; 6] [1; 0; 0; 1; 1; 1] (Some [10; 20]) = [14; 20; 25; 31].
